@@ -14,7 +14,7 @@ EXPLANATION = (
     "is replayed in place of the live state."
 )
 BOUNDS = {"quick": {"files": "sampler.sunsynth, metamodule.sunsynth, 10 seeded .sunsynth fixtures, 2 .sunvox fixtures", "attributes": "every controller / option / binding / common setting of the loaded module in fork-bounded chunks; "
-                             "sampler envelopes, samples, note map, record fields; project header, module and pattern fields"},
+                             "sampler envelopes, samples, note map, record fields (fixture) and each envelope kind on a library-written default sampler; project header, module and pattern fields"},
           "thorough": {"files": "all fixtures <= 3 KB", "attributes": "as quick"}}
 OUTSIDE = ["fixtures larger than 3 KB", "attributes that are not serialized"]
 ASSUMPTIONS = ["module flags keep the type's default bits"]
